@@ -213,3 +213,91 @@ def enum_lifecycle(max_len, families=(0,)):
         for n in range(1, max_len + 1):
             for ops in itertools.product(ENUM_OPS, repeat=n):
                 yield ENUM_SCRIPTS[f] + ENUM_PREFIX.get(f, []) + [f'op {o}' for o in ops]
+
+
+# number types, decoy instances, worlds ----------------------------------------------------------
+def typed(rng, tok, p=0.6):
+    """the same number written for another Python type where the value allows it: fractions.Fraction
+    always, int for whole seconds, bool for 0 and 1 s (none: float)"""
+    if tok == 'N' or rng.random() > p:
+        return tok
+    k = int(tok)
+    kinds = ['F', 'F']
+    if k % 8 == 0:
+        kinds += ['I', 'I']
+    if k in (0, 8):
+        kinds += ['B']
+    return rng.choice(kinds) + tok
+
+
+def retype(rng, lines, p=0.6):
+    """rewrite the waits and the dt values of a scenario in a mix of numeric types"""
+    out = []
+    for ln in lines:
+        t = ln.split()
+        if t and t[0] == 'gen':
+            for i in range(len(t) - 1):
+                if t[i] == 'yield':
+                    t[i + 1] = typed(rng, t[i + 1], p)
+            ln = ' '.join(t)
+        elif t[:2] == ['op', 'process']:
+            ln = f'op process {typed(rng, t[2], p)}'
+        out.append(ln)
+    return out
+
+
+def with_decoy(rng, main, decoy, k=1):
+    """two independent scenarios side by side in one program: the second one as instance @k, its
+    operations interleaved at random with those of the first"""
+    a_decl = [ln for ln in main if not ln.startswith('op ')]
+    a_ops = [ln for ln in main if ln.startswith('op ')]
+    b_decl = [f'@{k} {ln}' for ln in decoy if not ln.startswith('op ')]
+    b_ops = [f'@{k} {ln}' for ln in decoy if ln.startswith('op ')]
+    ops = []
+    while a_ops or b_ops:
+        src = a_ops if (a_ops and (not b_ops or rng.random() < len(a_ops) / (len(a_ops) + len(b_ops)))) \
+            else b_ops
+        ops.append(src.pop(0))
+    return a_decl + b_decl + ops
+
+
+def gen_two_clocks(rng, tier):
+    """C08: two (sometimes three) processors with sleeping coroutines, driven interleaved with
+    different dt - each keeps its own time"""
+    n = rng.choice([2, 2, 3])
+    scen = gen_timing(rng, tier)
+    for k in range(1, n):
+        scen = with_decoy(rng, scen, gen_timing(rng, tier), k)
+    return scen
+
+
+def gen_world(rng, tier):
+    """C09: the processor lives in a World; coroutines are started through @desper.coroutine (world=
+    argument and default-loop form) and directly, the world's CoroutineProcessor is replaced and
+    removed on the way, world.process drives whatever processor is current"""
+    n = rng.randint(1, 4)
+    lines = ['world'] + [gen_script(rng, g, n, rng.randint(1, 5), rng.choice([0.0, 0.2]), WAITS,
+                                    rng.choice([0.2, 0.5])) for g in range(n)]
+    has = True
+    for _ in range(rng.randint(4, 22)):
+        r = rng.random()
+        g = rng.randrange(n + (1 if rng.random() < 0.05 else 0))
+        if r < 0.30:
+            lines.append(f'op {rng.choice(["dstart", "dstart", "dstart0"])} {g}')
+        elif r < 0.36 and has:
+            lines.append(f'op start {g}')
+        elif r < 0.44 and has:
+            lines.append(f'op kill {g}')
+        elif r < 0.50 and has:
+            lines.append(f'op state {g}')
+        elif r < 0.56:
+            lines.append(f'op value {g}')
+        elif r < 0.66:
+            lines.append('op replace')
+            has = True
+        elif r < 0.70:
+            lines.append('op remove')
+            has = False
+        else:
+            lines.append(f'op process {rng.choice(DTS)}')
+    return lines
